@@ -297,7 +297,7 @@ class CreditControlRequest(CreditControl):
     access_network_charging_address: bytes
     access_network_charging_identifier_gx: bytes
     an_gw_address: bytes
-    event_trigger: int
+    event_trigger: list[int]
 
     avp_def: AvpGenType = (
         AvpGenDef("session_id", AVP_SESSION_ID, is_required=True),
